@@ -175,3 +175,72 @@ def step_limit_relations(tier):
     except Exception as ex:  # noqa
         ev.append({"e": "exception", "msg": "%s: %s" % (type(ex).__name__, str(ex)[:200])})
     return ev, info
+
+
+def zener_relations():
+    """computeZenerRadius on stub hosts with one to three precipitate phases, in every order, with global and phase-specific (m, K): the drag
+    is the documented SUM over the phases that carry precipitates of f^m / (K r).  Events for Relations.tla."""
+    from .kwn_drv import cmp3
+    ev = [{"e": "init"}]
+    data = {"FINE": (0.1, 5e-9), "COARSE": (1e-3, 1e-7), "NONE": (0.0, 0.0), "MID": (0.02, 2e-8)}
+
+    class Host2:
+        def __init__(self, names):
+            class PD: pass
+            self.phases = np.array(names)
+            self.pData = PD()
+            self.pData.n = 1
+            self.pData.Ravg = np.array([[0.0] * len(names), [data[n][1] for n in names]])
+            self.pData.volFrac = np.array([[0.0] * len(names), [data[n][0] for n in names]])
+    try:
+        for names in (["FINE"], ["FINE", "COARSE"], ["COARSE", "FINE"], ["FINE", "NONE"], ["NONE", "FINE"], ["FINE", "MID", "COARSE"], ["COARSE", "MID", "FINE"], ["MID", "NONE", "COARSE"]):
+            for special in (False, True):
+                g = mk()
+                mK = {"all": (1.0, 4.0 / 3.0)}
+                if special:
+                    g.setZenerParameters(0.9, 1.2, "FINE"); mK["FINE"] = (0.9, 1.2)
+                g.computeZenerRadius(Host2(names))
+                want = sum((data[n][0] ** mK.get(n, mK["all"])[0]) / (mK.get(n, mK["all"])[1] * data[n][1]) for n in names if data[n][1] > 0)
+                ev.append({"e": "rel", "group": "C18:zener-drag=sum-over-phases", "name": "%s%s" % ("+".join(names), " (phase-specific parameters)" if special else ""),
+                           "c": cmp3(float(g._z), float(want), rtol=1e-12), "want": "eq"})
+    except Exception as ex:  # noqa
+        ev.append({"e": "exception", "msg": "%s: %s" % (type(ex).__name__, str(ex)[:200])})
+    return ev
+
+
+def ratio_relations():
+    """the stated fraction of getDTEuler: a call that names a fraction uses it, a call that names none uses the documented 0.4, whatever was
+    asked of the same object before (also after reset, and through GrainGrowthModel.getDt).  Events for Relations.tla."""
+    from .kwn_drv import cmp3
+    from kawin.precipitation.PopulationBalance import PopulationBalanceModel
+    ev = [{"e": "init"}]
+    try:
+        def fresh():
+            p = PopulationBalanceModel(1e-10, 1e-8, 40, 20, 80)
+            x = np.zeros(40); x[5:20] = 10.0
+            p.UpdatePBMEuler(1.0, x)
+            return p
+        growth = np.linspace(-2e-10, 4e-10, 41)
+        ref = float(fresh().getDTEuler(1e9, growth, 0))
+        width = 1e-8 / 40 - 1e-10 / 40
+        for first in (0.9, 0.1, 0.75):
+            p = fresh()
+            a = float(p.getDTEuler(1e9, growth, 0, first))
+            ev.append({"e": "rel", "group": "C07:step-limit=named-fraction*width/fastest-growth", "name": "fraction %g" % first, "c": cmp3(a, ref * first / 0.4, rtol=1e-12), "want": "eq"})
+            b = float(p.getDTEuler(1e9, growth, 0))
+            ev.append({"e": "rel", "group": "C07:step-limit-without-a-named-fraction-uses-0.4", "name": "after a call with %g" % first, "c": cmp3(b, ref, rtol=1e-12), "want": "eq"})
+            p.reset(); x = np.zeros(40); x[5:20] = 10.0; p.UpdatePBMEuler(1.0, x)
+            c = float(p.getDTEuler(1e9, growth, 0))
+            ev.append({"e": "rel", "group": "C07:step-limit-without-a-named-fraction-uses-0.4", "name": "after a call with %g and a reset" % first, "c": cmp3(c, ref, rtol=1e-12), "want": "eq"})
+        # through the grain growth model: the user probes another fraction on gg.pbm, the model's own step is unchanged
+        g1, g2 = mk(), mk()
+        load(g1, "d2"); load(g2, "d2")
+        for g in (g1, g2):
+            g.finalTime = 100.0
+        dx1 = g1.getdXdt(0.0, [g1.pbm.PSD]); dx2 = g2.getdXdt(0.0, [g2.pbm.PSD])
+        g2.pbm.getDTEuler(100.0, g2._growthRate, g2.dissolutionIndex, 0.75)
+        ev.append({"e": "rel", "group": "C07:step-limit-without-a-named-fraction-uses-0.4", "name": "GrainGrowthModel.getDt after a probe with 0.75",
+                   "c": cmp3(float(g2.getDt(dx2)), float(g1.getDt(dx1)), rtol=1e-12), "want": "eq"})
+    except Exception as ex:  # noqa
+        ev.append({"e": "exception", "msg": "%s: %s" % (type(ex).__name__, str(ex)[:200])})
+    return ev
